@@ -371,7 +371,8 @@ def probes(s, limit=40, depth=0):
         out.append([[1], [True]])
         out.append([{"a": 1}, {"a": 1}])
         # equal for Python (==, hash) but different JSON values, in both orders
-        out += [[0, False], [False, 0], [1, True], [True, 1], [1.0, 1, True], ["a", "a", "b"]]
+        out += [[0, False], [False, 0], [1, True], [True, 1], [1.0, 1, True], ["a", "a", "b"], [1.0, 1.5], [1.5, 1.0],
+                [None, 0], ["", None]]
     for kw in ("allOf", "anyOf", "oneOf", "extends", "not", "if", "then", "else", "type", "disallow"):
         v = s.get(kw)
         for e in (v if isinstance(v, list) else [v]):
